@@ -46,6 +46,13 @@ HANDLE_MAKERS = {"cosmwasm_storage::singleton", "cosmwasm_storage::singleton_rea
 OTHER_WRITES = {"cw2::set_contract_version": "cw2:contract_info"}
 
 
+NO_INLINE_PREFIX = "margined_common::integer::"
+
+
+def is_integer_fn(pretty):
+    return pretty.startswith("margined_common::") and "integer::Integer" in pretty
+
+
 class Inter:
     def __init__(self, world, ev=None):
         self.world = world
@@ -97,6 +104,8 @@ class Inter:
             v2 = v
         if tag(v2) == "call" and depth > 0:
             fn = self.world.by_pretty.get(payload(v2)[0])
+            if fn is not None and is_integer_fn(fn.pretty):
+                fn = None  # the signed integer type's methods are primitives of the formula language (norm.py)
             if fn is not None:
                 m = self.param_map(fn, kids(v2))
                 try:
@@ -158,6 +167,13 @@ class Inter:
             if name == "not":
                 r = self.fold_cond(ks[0], not outcome) if outcome in (True, False) else None
                 return r
+        if t == "call" and outcome in (True, False):
+            nm = payload(atom)[0]
+            if is_integer_fn(nm) and nm.endswith(("::is_positive", "::is_negative")) and kids(atom):
+                a = kids(atom)[0]
+                if tag(a) == "call" and is_integer_fn(payload(a)[0]) and payload(a)[0].endswith(("::new_positive", "::zero")):
+                    val = nm.endswith("::is_positive")
+                    return val == outcome
         return None
 
     def feasible(self, p, mapping):
